@@ -51,6 +51,8 @@ def replay_elem(r):
     for (mod, cls, n, kw, _e) in c02_elem.OPS:
         if f"{mod}:{cls}" == meta["op"]:
             spec["n"] = n
+    for i, v in (meta.get("fixed") or {}).items():
+        spec["model"] = dict(spec["model"] or {}, **{f"x{i}": str(v)})
     spec["kwargs"] = {k: v for k, v in spec["kwargs"].items() if not v.startswith("alpha")}
     if meta["op"].endswith(":ELU"):
         spec["kwargs"] = {"alpha": "0.7"}
